@@ -173,10 +173,13 @@ pub fn exec_c15(plan: &C15Plan, st: &mut Stats) -> Option<Violation> {
         // stream call succeeds the picture is the one its own reader gives, and the reader
         // is left at the end of that picture's data, i.e. the FOLLOWING pictures decode as
         // in their own readers.
-        let early = spec.map(|s| s.mbs.len() < s.mb_count()).unwrap_or(false);
+        let early = spec.map(|s| s.mbs.len() < s.mb_count() && s.extra_bits.is_empty()).unwrap_or(false);
         if early && (oa.class() != ob.class() || !ob.is_ok()) {
             st.inc(if oa.class() != ob.class() { "early_ended_picture_outcome_differs_not_judged" } else { "early_ended_picture_rejected_by_both" });
             return None; // the stream's reader is not past this picture: nothing more to compare
+        }
+        if spec.map(|s| !s.extra_bits.is_empty()).unwrap_or(false) && ob.is_ok() {
+            st.inc("probe.umv_picture_accepted");
         }
         if early {
             st.inc(if i + 1 < n { "probe.early_ended_picture_followed_by_a_start_code" } else { "probe.early_ended_last_picture" });
@@ -283,6 +286,8 @@ pub fn gen_c15(rng: &mut Rng, tier: Tier) -> C15Plan {
     let two = !long && rng.chance(1, 8);
     // one stream in five contains early-ended predicted pictures
     let early_stream = rng.chance(1, 5);
+    // one PLUSPTYPE stream in three contains UMV pictures
+    let umv_stream = !two && matches!(fl, Flavour::StdPlus { .. }) && rng.chance(1, 3);
     let assign: Vec<u8> = if two { (0..n).map(|_| rng.below(2) as u8).collect() } else { vec![] };
     let mut has_ref2 = [false, false];
     let mut has_ref = false;
@@ -320,6 +325,39 @@ pub fn gen_c15(rng: &mut Rng, tier: Tier) -> C15Plan {
         if early_stream && ptype != PType::I && (!cfg.is_sorenson() || k + 1 == n) && !s.mbs.is_empty() && rng.bool() {
             let keep = if rng.chance(1, 4) { s.mbs.len() - 1 } else { rng.usize(s.mbs.len()) };
             s.mbs.truncate(keep);
+        }
+        // UMV pictures (standard mode, PLUSPTYPE with the unrestricted-motion-vector option):
+        // every macroblock INTER without coded blocks, its vector written in the Table D.3
+        // code, so that the picture's last bits are a vector component (often the one-bit
+        // code for zero).  No model is needed here: the twin defines the picture.
+        if umv_stream && ptype == PType::P && rng.bool() {
+            if let Flavour::StdPlus { layers, .. } = &s.flavour {
+                let umv = 1 + rng.below(2) as u8;
+                let hdr = crate::spec::PlusHdr { fmt: 6, umv, par: 1, ..Default::default() };
+                s.flavour = Flavour::StdPlus { umv_unlimited: umv == 2, layers: *layers, hdr: Some(hdr) };
+                let nmb = s.mb_count();
+                s.mbs.clear();
+                let comp = |rng: &mut Rng, bits: &mut Vec<(u32, u8)>, zero: bool| {
+                    if zero {
+                        bits.push((1, 1));
+                    } else {
+                        bits.push((0, 1));
+                        for _ in 0..rng.usize(4) {
+                            bits.push((*rng.pick(&[0b01u32, 0b11]), 2));
+                        }
+                        bits.push((*rng.pick(&[0b00u32, 0b10]), 2));
+                    }
+                };
+                for m in 0..nmb {
+                    s.extra_bits.push((0, 1)); // COD
+                    s.extra_bits.push((1, 1)); // MCBPC: INTER, no chroma
+                    s.extra_bits.push((0b11, 2)); // CBPY: no luma
+                    let z = rng.chance(1, 3);
+                    comp(rng, &mut s.extra_bits, z);
+                    let zy = if m + 1 == nmb { rng.chance(2, 3) } else { rng.chance(1, 3) };
+                    comp(rng, &mut s.extra_bits, zy);
+                }
+            }
         }
         if ptype != PType::Disposable {
             has_ref = true;
@@ -408,7 +446,7 @@ impl Property for C15 {
     type Plan = C15Plan;
     const ID: &'static str = "C15";
     const LEVEL: &'static str = "exploration";
-    const RULE: &'static str = "seeded streams of 1-6 valid pictures (any types, Sorenson v0/v1/other with size changes at intra pictures, standard PTYPE and PLUSPTYPE), each ending at an arbitrary bit phase (varied by PEI bytes and MCBPC stuffing) and padded with fewer than eight zero bits, concatenated into one source (byte-padded, or bit-contiguous with the next start code inside the byte where the previous picture ended; one stream in 100 has 20-80 pictures, a sweep pushes 66 000 pictures through one reader; sometimes two decoders take turns on the one reader, and the user commits / peeks / parses a header in a look-ahead / cleans up between calls; one stream in five contains EARLY-ENDED predicted pictures, whose macroblock data stops after any macroblock - anywhere in a standard-mode stream, where the decoder resynchronises on the next start code, and as the last picture of a Sorenson stream - judged only where both deliveries accept them); delivered whole, at picture boundaries, or with an arbitrary part of the following pictures, in chunks of 1..4096 bytes completed before the call that needs them, with EINTR sprinkled. Decoder A calls on the one reader, twin B uses one reader per picture; every call must agree in result, header and planes; further calls on the exhausted stream must report end of data and change nothing. evaluations = decode calls on the stream. A case is non-trivial if it is a picture boundary (picture i accepted and followed by picture i+1 in the same reader); distinct by the two pictures' bytes.";
+    const RULE: &'static str = "seeded streams of 1-6 valid pictures (any types, Sorenson v0/v1/other with size changes at intra pictures, standard PTYPE and PLUSPTYPE), each ending at an arbitrary bit phase (varied by PEI bytes and MCBPC stuffing) and padded with fewer than eight zero bits, concatenated into one source (byte-padded, or bit-contiguous with the next start code inside the byte where the previous picture ended; one stream in 100 has 20-80 pictures, a sweep pushes 66 000 pictures through one reader; sometimes two decoders take turns on the one reader, and the user commits / peeks / parses a header in a look-ahead / cleans up between calls; one stream in five contains EARLY-ENDED predicted pictures, whose macroblock data stops after any macroblock - anywhere in a standard-mode stream, where the decoder resynchronises on the next start code, and as the last picture of a Sorenson stream - judged only where both deliveries accept them; one PLUSPTYPE stream in three contains UMV pictures whose macroblocks are INTER without coded blocks and end in a Table D.3 vector code); delivered whole, at picture boundaries, or with an arbitrary part of the following pictures, in chunks of 1..4096 bytes completed before the call that needs them, with EINTR sprinkled. Decoder A calls on the one reader, twin B uses one reader per picture; every call must agree in result, header and planes; further calls on the exhausted stream must report end of data and change nothing. evaluations = decode calls on the stream. A case is non-trivial if it is a picture boundary (picture i accepted and followed by picture i+1 in the same reader); distinct by the two pictures' bytes.";
     fn runs(tier: Tier) -> u64 {
         match tier {
             Tier::Quick => 100_000,
@@ -509,6 +547,7 @@ impl Property for C15 {
             "user_parse_picture_between_calls",
             "early_ended_picture_followed_by_a_start_code",
             "early_ended_last_picture",
+            "umv_picture_accepted",
         ]
     }
 }
